@@ -256,18 +256,18 @@ Section Transpose.
   (* The record written by a run (result.dW), handed back to
      run_from_experiment, makes PreSetWiener hold exactly the recorded
      increments, and every in-range request returns them. *)
-  Lemma preset_replays_record : forall (nl : list (list A)) n het,
+  Lemma preset_replays_record : forall (nl : list (list A)) n het meas,
     (forall v, In v nl -> length v = n) ->
     (het = true -> exists h, n = 2 * h) ->
     exists na p,
       res_dW nl n het = Some na /\
-      preset_init na (length nl) n het false = Some p /\
+      preset_init na (length nl) n het meas = Some p /\
       p_noise p = map (fun v => [v]) nl /\
-      p_scale_dt p = false /\ p_scale_isqrt2 p = false /\
+      p_scale_dt p = meas /\ p_scale_isqrt2 p = meas && het /\
       forall k N, k + N <= length nl ->
         p_dW p k N = Some (map (fun v => [v]) (slice nl k (k + N))).
   Proof.
-    intros nl n het Hn Hhet.
+    intros nl n het meas Hn Hhet.
     destruct (transpose_involutive nl n Hn) as (r & Hr & Hlen & Hrows & Hback).
     assert (Hfin : forall p, p_noise p = map (fun v : list A => [v]) nl ->
               forall k N, k + N <= length nl ->
